@@ -21,10 +21,14 @@ def facts : Facts :=
     variadicSub := 1,
     argTypeCmp := .ge,
     argTypeElem := true,
+    argTypeSpreadArm := true,
     defTypeCmp := .ge,
     defTypeElem := false,
     callArms := [⟨.ellipsis, .callSlice⟩, ⟨.variadic, .callVariadic⟩, ⟨.always, .call⟩],
     fvArms := [⟨.ellipsis, .callSlice⟩, ⟨.variadic, .callVariadic⟩, ⟨.always, .call⟩],
+    callArgArms := [⟨.spreadArg, .raw⟩, ⟨.ifaceSrc, .boxIface⟩, ⟨.ifaceBin, .ifaceWrap⟩, ⟨.funcSrc, .funcValue⟩, ⟨.default, .raw⟩],
+    hostMethodBindsRecv := true,
+    bindRecvCopies := true,
     cvGuardVariadic := true,
     cvCmp := .eq,
     cvSub := 1,
@@ -58,24 +62,29 @@ def facts : Facts :=
 
 /-- fingerprints (extract/common FuncHash) of the functions Model/Boundary.lean was transcribed from -/
 def sourceHashes : List (String × String) :=
-  [("callBin", "ba3c7c394daa2733"),
+  [("callBin", "91abce538f1eb63f"),
    ("genFunctionWrapper", "033ce6ccd17871ac"),
    ("getFunc", "767f1bf470b0d0fd"),
-   ("call", "13deaf5e1d58559d"),
-   ("genInterfaceWrapper", "3467ccc00694c19f"),
+   ("call", "382b1d010889c322"),
+   ("genInterfaceWrapper", "39c789f3e29ad824"),
    ("methodByName", "cf343e4f55a358c1"),
    ("getFrame", "48dc117bdbd1af33"),
    ("callVariadic", "a136ff7434f20d7e"),
    ("deferCallSlice", "8195ae3a302030b3"),
    ("runDeferred", "3744dc350d781dfc"),
    ("copyDeferArg", "d8586ba1ea695e54"),
+   ("genInterfaceWrapperValue", "d62e22eba6a3bbbe"),
+   ("bindRecv", "55f76640c46031d5"),
+   ("getIndexBinMethod", "5ec1d14dc1fb9897"),
+   ("getIndexBinElemMethod", "bcef8a389dc1e7f4"),
+   ("getIndexBinPtrMethod", "603f0463868fd558"),
    ("genValueInterface", "1ef4b98ccbd7c706"),
    ("genValueInterfaceValue", "171a29501f555858"),
    ("valueInterfaceValue", "a7b9b257cb102bd6"),
    ("genFuncValue", "269e90121fb56e6d"),
    ("genValueAsFunctionWrapper", "6490b36d44a28c0a"),
    ("getConcreteValue", "3202c5a7310528d2"),
-   ("getBinValue", "f0affea075ce67fd"),
+   ("getBinValue", "cd78607e9f2b0e04"),
    ("genValueArray", "7423f6a50d5d826f"),
    ("genValue", "831b100a10664633"),
    ("genValueRecv", "a3dad7fc975e9eb7"),
@@ -122,6 +131,17 @@ def sourceHashes : List (String × String) :=
       `getFuncFramePerCall`);
     * d26dd9e: getFunc no longer restores the literal's frame slot after each call (`o := …` and the epilogue removed) — the
       model's closureCall never had that step; cc65000: Execute no longer sets interp.cancelChan;
+    * final sync at the frozen HEAD 4adaaf3 (reviewed against callBin ba3c7c394daa2733, call 13deaf5e1d58559d, genInterfaceWrapper
+      3467ccc00694c19f, getBinValue f0affea075ce67fd):
+      0b75d2f (F07-16) callBin's choice of argType becomes a switch whose first arm gives the argument followed by `...` the
+      variadic parameter's own slice type (`argTypeSpreadArm`); in `call` the parameter type `arg` of that argument is the slice
+      type as well; 449969c (F07-17) `call` passes only the spread slice raw (`spread := hasVariadicArgs && i == len(child)-1`
+      replaces `hasVariadicArgs` in the three places; `callArgArms`); ccca582 (F05-19) the body of genInterfaceWrapper moves,
+      unchanged, into genInterfaceWrapperValue(n, typ, value) (fingerprinted; the receiver records are read there) and
+      getBinValue wraps the value the interface holds; 5c3ec57 (F07-15) new helper bindRecv, getIndexBinMethod /
+      getIndexBinElemMethod call `.Method(m)` on `bindRecv(…)`, getIndexBinMethod selects a value-receiver method reached through
+      a pointer on the pointee (`hostMethodBindsRecv`, `bindRecvCopies`; the three getIndexBin*Method functions are fingerprinted
+      now); 868fedf (F07-14) is in cfg.go (the type of the method value of a script pointer to a host value), not fingerprinted;
     * db2d0c1 (reviewed before, C02 F02-5): `call` skips a zero-valued argument only when its type differs from the
       parameter's; arguments of the parameter's type are always copied (what the model assumes for every argument);
     * 215471a / 2e388d6: runCfg's deferred loop calls runDeferred (own recover) with the frame lock released. -/
